@@ -1075,6 +1075,13 @@ func Observe(s stackage.Stack) Obs {
 			if errors.Is(s.IsEqual(s), errClosure) {
 				return "closure"
 			}
+			// no closure of its own: the verdict is the built-in one whatever the OTHER side carries -- a peer of another
+			// kind and content whose own closure calls everything equal is still different
+			peer := stackage.Basic().Push("peer-only", "peer-only-2", "peer-only-3")
+			peer.SetEqualityPolicy(func(any, any) error { return nil })
+			if s.IsEqual(peer) == nil {
+				return "peer-closure"
+			}
 			return "builtin"
 		})
 		o.UmSrc = safeS(func() string {
